@@ -12,14 +12,17 @@ V: the driver draws own-family data (numpy only), performs the three fits on the
    measures sum(log dist.pdf(data)) with the object's own pdf and the parameters, and
    spec/Trace_C12.tla judges NoLikelihoodLoss.{fit,scaled,refit}, AtLeastGenerating.{fit,scaled,refit}
    (MomentsMatch for the moment estimator LogNormalNormFit), Admissible, ScaleEquivariant,
-   StartAsSpecified on every record.  History: every worker process runs its cases three times - in the
-   given order, in another seeded order (CaseOrderIndependent: all fitted parameters bit-identical) and
-   each first fit again after a fit of another instance of the family with parameter kfix fixed
-   (FixedFitDoesNotLeak: bit-identical).
+   StartAsSpecified on every record.  History: every worker process first forks one fresh process per first
+   fit (clean, and after a fit of another instance of the family with parameter kfix fixed), then runs its
+   cases three times - in the given order, in another seeded order (CaseOrderIndependent: all fitted
+   parameters bit-identical to each other and to the fresh process) and each first fit again after the
+   fixed-parameter instance (FixedFitDoesNotLeak: bit-identical, in the worker and in the fresh process).
 """
+import json
 import math
 import multiprocessing
 import os
+import select
 import struct
 import warnings
 import zlib
@@ -215,9 +218,53 @@ def bits(vals):
     return out
 
 
-def refit_only(c, seed, with_fixed_first):
-    """the fits of a case again (no likelihoods): all three (pass B), or the first fit preceded by a fit of
-    ANOTHER instance of the same family that has parameter kfix fixed at fixval (pass C)"""
+def run_fresh(func, args_list, procs):
+    """func(arg) for every arg, each call as the only work of a freshly forked child of THIS process (so the
+    child's module state is the state of this process at the time of the call); returns the JSON-able results"""
+    results = [None] * len(args_list)
+    running = {}      # fd -> (index, pid, buffer)
+    nxt = 0
+    while nxt < len(args_list) or running:
+        while nxt < len(args_list) and len(running) < procs:
+            rfd, wfd = os.pipe()
+            pid = os.fork()
+            if pid == 0:
+                os.close(rfd)
+                try:
+                    out = json.dumps(func(args_list[nxt]))
+                except BaseException as e:  # noqa
+                    out = json.dumps({"__exc__": f"{type(e).__name__}: {e}"[:200]})
+                with os.fdopen(wfd, "w") as fh:
+                    fh.write(out)
+                os._exit(0)
+            os.close(wfd)
+            running[rfd] = (nxt, pid, [])
+            nxt += 1
+        ready, _, _ = select.select(list(running), [], [])
+        for fd in ready:
+            chunk = os.read(fd, 1 << 16)
+            idx, pid, buf = running[fd]
+            if chunk:
+                buf.append(chunk)
+            else:
+                os.close(fd)
+                os.waitpid(pid, 0)
+                del running[fd]
+                results[idx] = json.loads(b"".join(buf).decode() or "null")
+    return results
+
+
+def fresh_first_fit(arg):
+    """the first fit of a case as the only work of a fresh process: clean, or after the fixed-parameter instance"""
+    c, seed, with_fixed = arg
+    return bits(refit_only(c, seed, "first_after_fixed" if with_fixed else "first"))
+
+
+def refit_only(c, seed, mode):
+    """the fits of a case again (no likelihoods).  mode "all": all three; "first": only the first fit;
+    "first_after_fixed": the first fit preceded by a fit of ANOTHER instance of the same family that has
+    parameter kfix fixed at fixval"""
+    with_fixed_first = mode == "first_after_fixed"
     vc = _vc()
     mk, names = _families(vc)[c["fam"]]
     fl = lambda q: [v / 1e6 for v in q]
@@ -231,7 +278,7 @@ def refit_only(c, seed, with_fixed_first):
         obj = mk() if c["kind"] == "default" else mk(**dict(zip(names, start)))
         obj.fit(x)
         p1f = [float(obj.parameters[k]) for k in names]
-        if with_fixed_first:
+        if mode != "all":
             return p1f
         out = list(p1f)
         if c["fam"] != "VonMises":
@@ -248,7 +295,13 @@ def run_chunk(arg):
     measures the likelihoods), pass B runs all fits again in a different seeded order, pass C runs every first
     fit again after a fit of another instance of the family with a fixed parameter."""
     widx, items, seed = arg
+    # history-free references first, while nothing has been fitted in this worker: every first fit as the only
+    # work of a process forked from it, clean (bits10) and after the fixed-parameter instance (bits1H)
+    fresh = run_fresh(fresh_first_fit, [(c, seed, h) for _, c in items for h in (False, True)], 1)
+    fresh = [f if isinstance(f, list) else [] for f in fresh]
     recs = [run_case((rid, c, seed)) for rid, c in items]
+    for k, r in enumerate(recs):
+        r["bits10"], r["bits1H"] = fresh[2 * k], fresh[2 * k + 1]
     rng = np.random.default_rng(seed * 1000 + widx + 12)
     for with_fixed, field in ((False, "bitsB"), (True, "bits1C")):
         for j in rng.permutation(len(items)):
@@ -257,12 +310,12 @@ def run_chunk(arg):
                 r.setdefault(field, [])
                 continue
             try:
-                r[field] = bits(refit_only(c, seed, with_fixed))
+                r[field] = bits(refit_only(c, seed, "first_after_fixed" if with_fixed else "all"))
             except Exception as e:  # noqa
                 r["exc"] = f"{'history' if with_fixed else 'second order'}: {type(e).__name__}: {e}"[:200]
                 r[field] = []
     for r in recs:
-        for f in ("bitsA", "bits1A", "bitsB", "bits1C"):
+        for f in ("bitsA", "bits1A", "bitsB", "bits1C", "bits10", "bits1H"):
             r.setdefault(f, [])
     return recs
 
@@ -336,6 +389,8 @@ def selftest(ctx, cases, recs, failing):
     m(sc, "UnexpectedException", exc="ValueError: x")
     m(sc, "CaseOrderIndependent", bitsB=sc["bitsB"][:-1] + [sc["bitsB"][-1] ^ 1])        # last bit of one estimate
     m(sc, "FixedFitDoesNotLeak", bits1C=bits([1.0]) + sc["bits1C"][3:])                  # a stale constant
+    m(sc, "CaseOrderIndependent", bits10=sc["bits10"][:-1] + [sc["bits10"][-1] ^ 1])
+    m(sc, "FixedFitDoesNotLeak", bits1H=bits([1.0]) + sc["bits1H"][3:])
     m(ln, "MomentsMatch", p1=[ln["p1"][0], ln["p1"][1] + 40])
     res = ctx.validate("Trace_C12", "Trace_C12.cfg", [r for _, r in muts])
     for clause, r in muts:
